@@ -3,6 +3,7 @@ From Coq Require Import List ZArith Bool Lia Permutation.
 From RecordUpdate Require Import RecordUpdate.
 From GB Require Import Model.Allowance Model.Batcher Proofs.Tactics Proofs.C01Inv Proofs.BatcherLocal
   Proofs.BatcherLocal2 Proofs.BatcherInv2 Proofs.BatcherInv3.
+From GB Require Import Gen.Facts.
 Import ListNotations.
 Open Scope Z_scope.
 (* OperationsInBuffer() never exceeds the configured size *)
@@ -47,3 +48,6 @@ Theorem C15_shutdown_releases_v1_refuted :
     /\ In (OEnqRet 1 RPanic) os.
 Proof. eexists. eexists. vm_compute. split; [reflexivity|]. simpl. tauto. Qed.
 Print Assumptions C15_shutdown_releases_v1_refuted.
+
+Theorem C15_source_constants : V1_default_buffer = 10000 /\ V2_default_buffer = 10000.
+Proof. split; reflexivity. Qed.
